@@ -150,3 +150,9 @@ PROPS['C10'] = dict(level='model_checking',
   harnesses=[SEQ('task_nested', 'C10_task.cpp', 'h_task_nested', std='c++20', exc=True, extra=['$REPO/source/async_stack.cpp'], opts=dict(max_rec=8, max_visits=200), desc='task<int> parent awaiting task<int> child awaiting a leaf with symbolic outcome')] +
             [SEQ('task_cleanup_o%d' % o, 'C10_task.cpp', 'h_task_cleanup', std='c++20', exc=True, extra=['$REPO/source/async_stack.cpp'], opts=dict(params=[o], max_rec=8, max_visits=200), desc='two at_coroutine_exit actions, exit path %s' % ['return', 'exception', 'done'][o]) for o in (0, 1, 2)] +
             [SEQ('task_stop_o%d_p%d' % (o, p), 'C10_task.cpp', 'h_task_stop', std='c++20', exc=True, extra=['$REPO/source/async_stack.cpp'], opts=dict(params=[o, p], max_rec=8, max_visits=200), desc='stop %s on the awaiting receiver is visible to the awaited leaf; leaf outcome %d' % ('requested' if p else 'not requested', o)) for o in (0, 2) for p in (0, 1)])
+
+PROPS['C14'] = dict(level='model_checking',
+  bounds='claimed part only: safe_file_descriptor (all 8^4 operation sequences: first enumerated, three symbolic) and mmap_region (all 4^3 sequences, symbolic) with counting ::close/::munmap stubs',
+  outside='everything that has the kernel as the other party: epoll/io_uring submission and completion, byte-exact transfers, short/failed syscalls, descriptor reuse after cancellation, cross-thread inbox wake-ups (not encodable without a kernel model; see DESIGN 7.6)',
+  harnesses=[SEQ('fd_first_%d' % c, 'C14_fd.cpp', 'h_fd', opts=dict(params=[c], max_visits=100), desc='safe_file_descriptor: first operation %d, then three symbolic operations out of 8' % c) for c in range(8)] +
+            [SEQ('mmap_seq', 'C14_fd.cpp', 'h_mmap', opts=dict(params=[0], max_visits=100), desc='mmap_region: three symbolic operations out of 4')])
